@@ -1053,6 +1053,95 @@ fn case_push(r: &mut Rng, out: &mut Out, which: u64, forced: Option<(Op, Vec<Vec
     });
 }
 
+/// push operators fed with chunks that carry a selection vector (what a pull operator under an
+/// OperatorSource hands over), against the model, the list specification on the selected rows and the pull twins
+fn case_push_sel(r: &mut Rng, out: &mut Out, which: u64, forced: Option<(Op, Vec<(Vec<Row>, Vec<usize>)>)>) {
+    let corpus = forced.is_some();
+    let (op, cs) = match forced {
+        Some(x) => x,
+        None => {
+            let nchunks = 1 + r.below(3) as usize;
+            let n = 1 + r.below(10) as usize;
+            let (rows, kind) = gen_table(r, n * nchunks);
+            let op = gen_op(r, kind, which, n * nchunks / 2);
+            let mut cs = vec![];
+            for c in 0..nchunks {
+                let phys = rows[c * n..(c + 1) * n].to_vec();
+                let sel: Vec<usize> = match r.below(6) {
+                    0 => (0..n).collect(),                             // everything selected
+                    1 => (0..r.below(n as u64 + 1) as usize).collect(), // a prefix
+                    2 => (r.below(n as u64 + 1) as usize..n).collect(), // a suffix
+                    3 => vec![],
+                    _ => {
+                        let p = *r.pick(&[30u64, 50, 80]);
+                        (0..n).filter(|_| r.below(100) < p).collect()
+                    }
+                };
+                cs.push((phys, sel));
+            }
+            (op, cs)
+        }
+    };
+    let mk = |phys: &Vec<Row>, sel: &Vec<usize>| {
+        let mut c = to_chunk(phys, 3);
+        c.set_selection(grafeo_core::execution::SelectionVector::from_predicate(phys.len(), |i| sel.contains(&i)));
+        c
+    };
+    let dchunks: Vec<DataChunk> = cs.iter().map(|(p, s)| mk(p, s)).collect();
+    let mut real = op_real(&op);
+    let mut obs: Vec<(Vec<Vec<Row>>, bool)> = vec![];
+    for c in &dchunks {
+        let mut sink = CollectorSink::new();
+        let cont = real.push(c.clone(), &mut sink).unwrap();
+        obs.push((rows_of_chunks(sink.chunks()), cont));
+    }
+    let mut sink = CollectorSink::new();
+    real.finalize(&mut sink).unwrap();
+    let fin = rows_of_chunks(sink.chunks());
+    let mut driven: Vec<Row> = vec![];
+    for (o, cont) in &obs {
+        driven.extend(flat(o));
+        if !*cont {
+            break;
+        }
+    }
+    driven.extend(flat(&fin));
+    let selected: Vec<Row> = cs.iter().flat_map(|(p, s)| s.iter().map(|&i| p[i].clone()).collect::<Vec<_>>()).collect();
+    let spec = op_spec(&op, &selected);
+    let twin = pull_twin(&op, &dchunks, 3);
+    let class = hash_class(&selected);
+    let push_ok = driven == spec;
+    let pull_ok = twin.as_ref().is_none_or(|t| *t == spec);
+    let prefix = cs.iter().all(|(_, s)| s.iter().enumerate().all(|(j, &i)| i == j));
+    let cs_coq = coq::list(cs.iter().map(|(p, s)| format!("({}, {})", coq_hrows(p), coq::list(s.iter().map(|&i| coq::z(i as i64))))));
+    // a failure of the push side with a non-prefix selection is finding C17-K9; anything else (pull twin, prefix selections) is not listed
+    let k9 = !push_ok && pull_ok && !prefix;
+    let distinct_k8 = class == 1 && matches!(op, Op::Distinct(_));
+    out.emit(&Case {
+        kind: format!("push_sel_{}", ["filter", "limit", "distinct", "sort", "project"][which as usize]),
+        input: format!("op={:?} chunks(physical rows, selection)={:?}", op, cs),
+        coq: Some(format!(
+            "chk_push_sel {} {} {} {}",
+            op_coq(&op),
+            cs_coq,
+            coq::list(obs.iter().map(|(o, c)| format!("({}, {})", coq_chunks(o), c))),
+            coq_chunks(&fin)
+        )),
+        oracle: if class == 2 || distinct_k8 { Oracle::Na } else { ok_or(push_ok && pull_ok) },
+        msg: if push_ok && pull_ok { String::new() } else { format!("selected rows {:?}: push={:?} pull={:?} spec={:?}", selected, driven, twin, spec) },
+        kid: if k9 { Some("C17-K9".into()) } else { None },
+        kcoq: if k9 { Some(format!("k_push_sel_not_prefix {}", cs_coq)) } else { None },
+        nontrivial: !prefix && selected.len() >= 2,
+        imp: format!("{:?} fin={:?}", obs, fin),
+        tags: vec![
+            format!("sel:chunks={}", cs.len()),
+            (if prefix { "sel:prefix" } else { "sel:general" }).to_string(),
+            if corpus { "corpus".into() } else { hash_tag(class) },
+        ],
+        ..Default::default()
+    });
+}
+
 /// chunks above 65535 rows (SelectionVector indices are u16) and pull DISTINCT above 2048 uniques
 fn case_big_chunk(out: &mut Out, which: u64) {
     let nrows = 70000usize;
@@ -1898,6 +1987,14 @@ fn main() {
     case_pipeline(&mut r, &mut out, Some((vec![ge0.clone(), Op::Limit(0)], t10.clone())));
     case_pipeline(&mut r, &mut out, Some((vec![Op::Limit(0), ge0.clone()], t10.clone())));
     case_pipeline(&mut r, &mut out, Some((vec![ge0.clone(), Op::Limit(3)], t10.clone())));
+    // C17-K9: a chunk with a selection vector that is not a prefix: rows 0..10, rows 5..9 selected
+    let sel59: Vec<usize> = (5..10).collect();
+    case_push_sel(&mut r, &mut out, 0, Some((ge0.clone(), vec![(t10.clone(), sel59.clone())])));
+    case_push_sel(&mut r, &mut out, 1, Some((Op::Limit(2), vec![(t10.clone(), sel59.clone())])));
+    case_push_sel(&mut r, &mut out, 2, Some((Op::Distinct(None), vec![(t10.clone(), sel59.clone())])));
+    case_push_sel(&mut r, &mut out, 3, Some((Op::Sort(k0.clone()), vec![(t10.clone(), sel59.clone())])));
+    case_push_sel(&mut r, &mut out, 4, Some((Op::Project(vec![1, 0]), vec![(t10.clone(), sel59.clone())])));
+    case_push_sel(&mut r, &mut out, 0, Some((ge0.clone(), vec![(t10.clone(), (0..5).collect())])));
     // C17-K6: PartitionedState cleanup / drop with partitions on disk
     case_files(&mut r, &mut out, &d, Some(vec![2, 2, 5]));
     case_files(&mut r, &mut out, &d, Some(vec![2]));
@@ -1935,6 +2032,11 @@ fn main() {
     for w in 0..5 {
         for _ in 0..scale(70) {
             case_push(&mut r, &mut out, w, None);
+        }
+    }
+    for w in 0..5 {
+        for _ in 0..scale(40) {
+            case_push_sel(&mut r, &mut out, w, None);
         }
     }
     for _ in 0..scale(200) {
